@@ -144,7 +144,7 @@ def _observations_agree(E, sym_obs, conc_obs, model):
     return None
 
 
-def _worker(hname, cfgs, opts, tasks, results, widx, stop_flags=None):
+def _worker(hname, cfgs, opts, tasks, results, widx, stop_flags=None, path_counts=None):
     try:
         signal.signal(signal.SIGINT, signal.SIG_IGN)
         hmod = importlib.import_module("harness." + hname)
@@ -169,7 +169,8 @@ def _worker(hname, cfgs, opts, tasks, results, widx, stop_flags=None):
                 n_local = 0
                 while stack:
                     if stop_flags is not None and stop_flags[ci]:
-                        st.counters["prefixes_cut_after_violation"] = st.counters.get("prefixes_cut_after_violation", 0) + len(stack)
+                        key = "prefixes_cut_after_violation" if stop_flags[ci] == 1 else "prefixes_cut_at_path_budget"
+                        st.counters[key] = st.counters.get(key, 0) + len(stack)
                         break
                     if t_deadline and time.time() > t_deadline:
                         st.counters["deadline_dropped"] = st.counters.get("deadline_dropped", 0) + len(stack)
@@ -259,6 +260,10 @@ def _worker(hname, cfgs, opts, tasks, results, widx, stop_flags=None):
                         })
                     stack.extend(alts)
                     n_local += 1
+                    if path_counts is not None and opts.get("path_budget"):
+                        path_counts[ci] += 1
+                        if path_counts[ci] >= opts["path_budget"] and not stop_flags[ci]:
+                            stop_flags[ci] = 2
                     if st.cands and stop_flags is not None and not cfg.get("expect_fail"):
                         st.paths_since_fail = getattr(st, "paths_since_fail", 0) + 1
                         if st.paths_since_fail >= opts["paths_after_violation"]:
@@ -352,6 +357,7 @@ def run_harness(hname, tier="quick", seed=0, only=None):
         "validate_every": getattr(hmod, "VALIDATE_EVERY", 97),
         "nproc": NPROC,
         "paths_after_violation": getattr(hmod, "PATHS_AFTER_VIOLATION", 150),
+        "path_budget": getattr(hmod, "PATH_BUDGET", {}).get(tier, DEFAULT_PATH_BUDGET.get(tier)),
     }
     budget = getattr(hmod, "WALL_BUDGET_S", {}).get(tier)
     if budget:
@@ -362,7 +368,8 @@ def run_harness(hname, tier="quick", seed=0, only=None):
     for i in order:
         tasks.put((i, [], False))
     stop_flags = mp.Array("b", len(cfgs), lock=False)
-    procs = [mp.Process(target=_worker, args=(hname, cfgs, opts, tasks, results, w, stop_flags), daemon=True) for w in range(NPROC)]
+    path_counts = mp.Array("i", len(cfgs), lock=False)
+    procs = [mp.Process(target=_worker, args=(hname, cfgs, opts, tasks, results, w, stop_flags, path_counts), daemon=True) for w in range(NPROC)]
     for p in procs:
         p.start()
     tasks.join()
@@ -496,7 +503,8 @@ def run_harness(hname, tier="quick", seed=0, only=None):
     tot = {k: sum(m[k] for m in merged.values()) for k in ("paths", "done", "infeasible", "timeouts", "maybe", "decisions", "checks", "checks_symbolic", "validated")}
     unknown_checks = sum(len(m["unknown"]) for m in merged.values())
     validation_fail = [dict(v, config=cfgs[ci]["name"]) for ci, m in merged.items() for v in m["validation_fail"]]
-    dropped = sum(m["counters"].get("deadline_dropped", 0) for m in merged.values())
+    dropped = sum(m["counters"].get("deadline_dropped", 0) + m["counters"].get("prefixes_cut_at_path_budget", 0) for m in merged.values())
+    cut_cfgs = sorted(cfgs[ci]["name"] for ci, m in merged.items() if m["counters"].get("prefixes_cut_at_path_budget", 0))
     missing_cfgs = [cfgs[i]["name"] for i in range(len(cfgs)) if i not in merged]
     functions = sorted(set(f for m in merged.values() for f in m["functions"]))
     hang_incon = 0
@@ -547,7 +555,8 @@ def run_harness(hname, tier="quick", seed=0, only=None):
 
     # ---- evidence
     incomplete = {"unknown_checks": unknown_checks, "solver_unknown": eng_stats["unknown"], "paths_maybe_infeasible": tot["maybe"],
-                  "path_timeouts_inconclusive": hang_incon, "prefixes_dropped_at_deadline": dropped}
+                  "path_timeouts_inconclusive": hang_incon, "prefixes_dropped_at_deadline_or_path_budget": dropped,
+                  "configurations_cut_at_path_budget": {"budget_paths_per_configuration": opts.get("path_budget"), "names": cut_cfgs}}
     samples = []
     for ci in sorted(merged):
         samples.extend(merged[ci]["samples"][:1])
@@ -611,6 +620,8 @@ def run_harness(hname, tier="quick", seed=0, only=None):
         print("  not covered:", incomplete)
     return status
 
+
+DEFAULT_PATH_BUDGET = {"quick": None, "thorough": 8000}
 
 COMMON_ASSUMPTIONS = [
     "arithmetic on symbolic values is exact (reals); every concrete double enters terms as its exact rational value; IEEE rounding of symbolic arithmetic is not modelled (near-ties below rounding error are outside the claim)",
